@@ -49,6 +49,9 @@ Definition gen_tables : tmpl_tables := gen_tables_of gen_iface_sigs.
 # fallback when a translator cannot read the current tree: judge against the hand copies
 HAND_TABLES = """From Coq Require Import String List.
 From GT Require Import GenBuildModel.
+Definition genum_uses : list tuse := nil.
+Definition gerror_uses : list tuse := nil.
+Definition gsort_uses : list tuse := nil.
 Definition gen_tables : tmpl_tables := hand_tables.
 Definition gen_kinds : list bkind := hand_kinds.
 Definition gen_render : rexpr := hand_render.
@@ -85,6 +88,13 @@ Print R_isigs_cover.
 Definition R_kinds_bad := Eval vm_compute in
   map (fun k => (bk_name k, render gen_render k)) (filter (fun k => negb (kind_ok gen_render k)) gen_kinds).
 Print R_kinds_bad.
+Definition R_uses_bad := Eval vm_compute in
+  (flat_map (fun o => map (fun p => (show_genum o, fst p, snd p))
+                          (undeclared_uses (tt_genum gen_tables) [] genum_uses (genum_env o))) all_genum_opts
+   ++ flat_map (fun k => map (fun p => (("skipConvertGen=" ++ bstr k)%string, fst p, snd p))
+                             (undeclared_uses (tt_gerror gen_tables) (tt_promoted gen_tables) gerror_uses (gerror_env k))) bools
+   ++ map (fun p => ("gsort", fst p, snd p)) (undeclared_uses (tt_gsort gen_tables) [] gsort_uses (fun _ => false)))%list.
+Print R_uses_bad.
 Definition R_render := Eval vm_compute in gen_render.
 Print R_render.
 Definition tfunc_eqb (a b : tfunc) : bool :=
@@ -129,6 +139,11 @@ Proof. exact (C13_methods_any_table gen_tables cur_genum_sweep cur_gerror_sweep 
 Theorem C13_basic_kinds_current_tree : forall k, In k gen_kinds -> bk_const k = true ->
   In (render gen_render k) predeclared_go_types.
 Proof. exact (C13_basic_kinds_any_table gen_render gen_kinds cur_kinds_sweep). Qed.
+Lemma cur_uses_sweep : uses_sweep gen_tables genum_uses gerror_uses gsort_uses = true.
+Proof. vm_compute. reflexivity. Qed.
+Definition C13_uses_declared_current_tree :=
+  C13_uses_declared_any_table gen_tables genum_uses gerror_uses gsort_uses cur_uses_sweep.
+Print Assumptions C13_uses_declared_current_tree.
 Print Assumptions C13_methods_current_tree.
 Print Assumptions C13_basic_kinds_current_tree.
 """
@@ -151,6 +166,7 @@ def run_tie(ctx):
     for name, what in (("R_genum_bad", "genum template: (setting, required methods missing, methods with a wrong signature)"),
                        ("R_gerror_bad", "gerror template: (skipConvertGen, methods missing, wrong signatures) or Convert emitted under skipConvertGen"),
                        ("R_gsort_bad", "gsort template: (pointer, sort.Interface methods missing, wrong signatures)"),
+                       ("R_uses_bad", "template bodies: (setting, func, callee) — a call of a receiver method / template-named function that can be emitted while its callee is not"),
                        ("R_kinds_bad", "ExtractTypeRef renders constant kinds as non-types")):
         v = _plist(out, name)
         if v is None:
@@ -165,7 +181,7 @@ def run_tie(ctx):
     if res["broken"]:
         return res
     rc, out = ctx.coq_eval("C13Tie", TIE_THEOREMS, timeout=600)
-    if rc != 0 or out.count("Closed under the global context") != 2:
+    if rc != 0 or out.count("Closed under the global context") != 3:
         res["broken"].append("theorems over the regenerated tables do not check")
         res["detail"] = out[-3000:]
         return res
@@ -299,7 +315,10 @@ def problems(case):
                 if s in shapes and pred(c):
                     shape = s
                     break
-        if shape:
+        if case["tool"] == "gsort" and "sorter_in_both_forms" in shapes:
+            # one slice type declared twice: redeclared type, duplicate methods, assertions
+            f = {"tool": "gsort", "shape": "sorter_in_both_forms", "owner": "C13"}
+        elif shape:
             f = {"tool": case["tool"], "shape": shape, "owner": "C12"}
         else:
             f = {"tool": case["tool"], "shape": "", "error_class": c["class"], "detail": c.get("detail", ""),
@@ -395,6 +414,25 @@ def reductions(spec):
             s = copy.deepcopy(spec)
             del s["gsort"]["fields"][i]
             out.append(s)
+        # drop a whole sorter (all tags naming it), then single tags
+        names = []
+        for f in g.get("fields") or []:
+            for t in f.get("tags") or []:
+                n = t.split(",")[0]
+                if n not in names:
+                    names.append(n)
+        if len(names) > 1:
+            for n in names:
+                s = copy.deepcopy(spec)
+                for f in s["gsort"]["fields"]:
+                    f["tags"] = [t for t in (f.get("tags") or []) if t.split(",")[0] != n]
+                out.append(s)
+        for i, f in enumerate(g.get("fields") or []):
+            if len(f.get("tags") or []) > 1:
+                for k in range(len(f["tags"])):
+                    s = copy.deepcopy(spec)
+                    del s["gsort"]["fields"][i]["tags"][k]
+                    out.append(s)
     return out
 
 
